@@ -5,7 +5,9 @@ EXTENDS Lexis
 CONSTANT MaxLen
 Alphabet == {"a", "n", " ", "\n", "'", "\"", "\\", "`"}
 VARIABLE t
-Init == t \in UNION {[1..n -> Alphabet] : n \in 0..MaxLen}
+\* plus a few texts outside the alphabet: expressions that begin and end with a parenthesis
+Extra == { <<"(", "a", ")">>, <<"(", "a", ")", " ", "(", "n", ")">>, <<"(", "(", "a", ")", ")">>, <<"(", "a", ")", "n">>, <<"a", "(", ")">> }
+Init == t \in UNION {[1..n -> Alphabet] : n \in 0..MaxLen} \cup Extra
 Next == UNCHANGED t
 InvWriter == WriterLexerInverse(t)
 InvNorm == NormIdempotent(t)
